@@ -4,8 +4,9 @@
 //!             top-level expression is rendered as an S-expression in the vocabulary of
 //!             Precedence.tla: (op l r), (u<op> x), (. obj name), (call f args..),
 //!             (mcall obj name args..), (idx obj i), identifiers and literal texts.
-//! parse-eq:   {"a": src, "b": src} -> whether both parse and whether the trees are equal under
-//!             the crate's own position-insensitive equality.
+//! parse-eq:   {"a": src, "b": src} -> whether both parse (lexer + parser, before desugaring, because the
+//!             desugarer invents names from source positions) and whether the trees are equal
+//!             under the crate's own position-insensitive equality.
 use erg_parser::ast::{Accessor, Args, Expr, Module, Tuple};
 use erg_common::traits::Stream;
 use erg_parser::parse::{Parsable, SimpleParser};
@@ -61,11 +62,23 @@ fn parse(src: &str) -> Result<(Module, usize), usize> {
     }
 }
 
+/// lexer + parser only (no desugaring), so that the tree is the parser's own reading
+fn parse_raw(src: &str) -> Result<(Module, usize), usize> {
+    let ts = match erg_parser::lex::Lexer::from_str(src.to_string()).lex() {
+        Ok(ts) => ts,
+        Err((_, es)) => return Err(es.len().max(1)),
+    };
+    match erg_parser::parse::Parser::new(ts).parse() {
+        Ok(art) => Ok((art.ast, art.warns.len())),
+        Err(iart) => Err(iart.errors.len().max(1)),
+    }
+}
+
 pub fn run_expr(_args: &[String]) -> i32 {
     let mut out = Out::new();
     for rec in read_records() {
         let src = rec["src"].as_str().unwrap_or("").to_string();
-        let r = guarded(|| match parse(&src) {
+        let r = guarded(|| match parse_raw(&src) {
             Ok((m, _)) => {
                 let chunks: Vec<&Expr> = m.iter().collect();
                 if chunks.len() == 1 {
@@ -96,17 +109,22 @@ pub fn run_eq(_args: &[String]) -> i32 {
         let a = rec["a"].as_str().unwrap_or("").to_string();
         let b = rec["b"].as_str().unwrap_or("").to_string();
         let r = guarded(|| {
-            let pa = parse(&a);
-            let pb = parse(&b);
+            let pa = parse_raw(&a);
+            let pb = parse_raw(&b);
             // determinism: the same text parsed again gives the same tree
-            let pa2 = parse(&a);
+            let pa2 = parse_raw(&a);
             let det = match (&pa, &pa2) {
-                (Ok((x, _)), Ok((y, _))) => x == y,
+                (Ok((x, _)), Ok((y, _))) => x == y && format!("{x}") == format!("{y}"),
                 (Err(x), Err(y)) => x == y,
                 _ => false,
             };
             match (pa, pb) {
-                (Ok((x, _)), Ok((y, _))) => json!({"ok_a": true, "ok_b": true, "eq": x == y, "det": det}),
+                // The tree is compared through its position-free rendering (Display); the crate's
+                // `==` compares source locations inside a few node kinds (`C|<: T|.` headers, dict
+                // type specifications) and is reported separately for information only.
+                (Ok((x, _)), Ok((y, _))) => {
+                    json!({"ok_a": true, "ok_b": true, "eq": format!("{x}") == format!("{y}"), "eq_crate": x == y, "det": det})
+                }
                 (x, y) => json!({"ok_a": x.is_ok(), "ok_b": y.is_ok(), "eq": false, "det": det}),
             }
         });
